@@ -7,14 +7,14 @@ set -u
 PROP=$1; SRC=$2; I=$3; shift 3
 CHECKS="${*:-$PROP}"
 export GOFLAGS=-mod=mod GOPROXY=off GOSUMDB=off GOTOOLCHAIN=local
-OUT=/verif/seeded/$PROP-$I
+OUT=/verif/seeded/$PROP-$I${SEED_SUFFIX:-}
 mkdir -p "$OUT"
 if [ "$(readlink -f "$SRC")" != "$(readlink -f "$OUT")" ]; then
   cp "$SRC/mutant$I.diff" "$OUT/patch.diff"
   cp "$SRC/demo${I}_test.go" "$OUT/demo_test.go" 2>/dev/null
   cp "$SRC/note$I.md" "$OUT/note.md" 2>/dev/null
 fi
-WT=$(mktemp -d /tmp/mt-$PROP-$I-XXXX)
+WT=$(mktemp -d /tmp/mt-$PROP-$I${SEED_SUFFIX:-}-XXXX)
 rmdir "$WT"
 git -C /repo worktree add -q --detach "$WT" HEAD || exit 3
 cleanup() { git -C /repo worktree remove --force "$WT" 2>/dev/null; rm -rf "$WT"; }
@@ -62,5 +62,5 @@ meta = {
 }
 json.dump(meta, open(os.path.join(out, 'meta.json'), 'w'), indent=1)
 ok = all(meta["confirmed"].values())
-print(f"{prop}-{i}: confirmed={ok} {meta['confirmed'] if not ok else ''} detected_by={meta['detected_by']} exit={det}")
+print(f"{prop}-{i}{os.environ.get('SEED_SUFFIX','')}: confirmed={ok} {meta['confirmed'] if not ok else ''} detected_by={meta['detected_by']} exit={det}")
 PY
